@@ -598,6 +598,24 @@ Section RunInv.
     - constructor; [|apply IH]. intros f Hf. eapply pinned_value_held; [exact Hf|exact E].
     - constructor; [exact I|constructor].
   Qed.
+
+  (* the state a SEEDED run starts from (fix ba0ecc8): the seed's order parameter with the configured terminal value imposed on the
+     terminal sites.  Whatever the seed holds there, the terminals of a default (zero) contact are zero at every step, and the
+     initial state itself holds the configured value on them. *)
+  Definition impose (v : RC) (psi : nat -> RC) : nat -> RC := fun r => if is_fixed fixed r then v else psi r.
+
+  Lemma impose_fixed v psi f : In f fixed -> impose v psi f = v.
+  Proof. intros H. unfold impose. rewrite (is_fixed_in fixed f H). reflexivity. Qed.
+
+  Lemma impose_free v psi r : ~ In r fixed -> impose v psi r = psi r.
+  Proof. intros H. unfold impose. rewrite (is_fixed_notin fixed r H). reflexivity. Qed.
+
+  Theorem run_terminal_zero_seeded gamma u : NoDup fixed -> forall l seed mu,
+    Forall (fun x : option (step_out OpsR) => match x with Some o => forall f, In f fixed -> so_psi _ o f = (0, 0) | None => True end)
+           (run_steps OpsR a n es fixed solve None expi gamma u (impose (0, 0) seed) mu l).
+  Proof.
+    intros Hnd l seed mu. apply run_terminal_zero; [exact Hnd|]. intros f Hf. apply impose_fixed. exact Hf.
+  Qed.
 End RunInv.
 
 (* ---------------- update_mu_boundary: the change-only cache is coherent (C01) ---------------- *)
